@@ -122,6 +122,15 @@ theorem c15_lockfree_read_consistent (w : Nat) (h2 : Nat → Nat) (hw : 0 < w) {
     ∃ s0, Conc.Bucket.Reach w h2 s0 ∧ Conc.Bucket.Run w h2 s0 s ∧ (s0.m.rd r).key = some k ∧ Conc.Bucket.Abs h2 s0.m k v :=
   Conc.Bucket.read_linearizable_run w h2 hw h hd
 
+/-- Range's per-bucket copy (taken under the bucket lock) is exactly the chain's mapping: every non-nil pointer is a complete
+    mapping of its key, no key occurs twice, and every mapped key is among the copied pointers -/
+theorem c15_range_bucket_copy_exact (w : Nat) (h2 : Nat → Nat) (hw : 0 < w) {s : Conc.Bucket.St}
+    (h : Conc.Bucket.Reach w h2 s) (hidle : s.m.wr = .idle) :
+    (∀ sl n, s.m.ptr sl = some n → Conc.Bucket.Valid h2 s.m sl n.key n) ∧
+    (∀ sl sl' n n', s.m.ptr sl = some n → s.m.ptr sl' = some n' → n.key = n'.key → sl = sl') ∧
+    (∀ k n, Conc.Bucket.Abs h2 s.m k (some n) → ∃ sl, s.m.ptr sl = some n ∧ sl < s.m.len * w) :=
+  Conc.Bucket.locked_scan_exact w h2 hw h hidle
+
 /-- in every reachable chain: no key in two slots; a pointer without its meta byte only in the middle of its own deletion;
     a meta byte without pointer only in the middle of its own insertion is covered by `insI`; nothing beyond the last bucket -/
 theorem c15_chain_invariant (w : Nat) (h2 : Nat → Nat) (hw : 0 < w) {s : Conc.Bucket.St} (h : Conc.Bucket.Reach w h2 s) :
